@@ -13,8 +13,9 @@ from decimal import Decimal
 from fractions import Fraction
 
 VERIF = os.path.dirname(os.path.dirname(os.path.dirname(os.path.abspath(__file__))))
-EVIDENCE_DIR = os.path.join(VERIF, "evidence")
-REPLAY_DIR = os.path.join(VERIF, "replays")
+# the two overrides exist so that runs against a scratch copy of the library (seeded/seedtool.py) do not clobber the real evidence
+EVIDENCE_DIR = os.environ.get("VERIF_EVIDENCE_DIR") or os.path.join(VERIF, "evidence")
+REPLAY_DIR = os.environ.get("VERIF_REPLAY_DIR") or os.path.join(VERIF, "replays")
 FINDINGS_FILE = os.path.join(VERIF, "known_findings.json")
 
 
@@ -198,6 +199,7 @@ class Run:
             "level": self.level,
             "coverage": jsonable(cov),
             "assumptions": list(assumptions or self.assumptions),
+            "library_under_test": _library_path(),
             "wall_s": round(time.time() - self.t0, 3),
             "violations": len(unknown),
         }
@@ -210,6 +212,15 @@ class Run:
         print(f"{self.pid} tier={self.tier} seed={self.seed} wall={ev['wall_s']}s violations={len(unknown)} "
               f"known={len(known_hit)} {brief}")
         return 1 if unknown else 0
+
+
+def _library_path():
+    try:
+        import demeter
+
+        return os.path.dirname(os.path.dirname(os.path.abspath(demeter.__file__)))
+    except Exception:  # pragma: no cover
+        return None
 
 
 class Part:
